@@ -1,6 +1,7 @@
 import Dcg.Proofs.Sort
 import Dcg.Proofs.SortPost
 import Dcg.Proofs.Repoint
+import Dcg.Proofs.RepointLive
 /-
 C11 — no model is lost or duplicated, eager dependencies are defined first, ordering terminates.
 Only property theorems live here; helper lemmas are in Dcg/Proofs/Sort.lean.
@@ -420,6 +421,19 @@ theorem live_walk_leaves_users_behind :
     (repointLive (fun _ => true) 1 0 10 0 (Store.ofLists [(0, []), (1, [10])] [(10, some 1)])).map
       (fun s => s.view [0, 1] [10]) = some ([(0, [10]), (1, [])], [(10, some 0)]) :=
   ⟨by decide, by decide⟩
+
+/-- The general fact behind these witnesses: for ANY number of pairwise distinct users that all take
+part, the live walk ends with exactly the users at the odd positions (`everySecond`) still registered
+with — and still referring to — the dropped duplicate. So from two users on the copy is needed. -/
+theorem live_walk_skips_every_second_user (dup target : Ref) (s : Store) (hne : dup ≠ target)
+    (hwf : ChildrenRefer s dup) (hnd : (s.kids dup).Nodup) :
+    ∃ s', repointLive (fun _ => true) dup target ((s.kids dup).length + 1) 0 s = some s' ∧
+      s'.kids dup = everySecond (s.kids dup) ∧ ∀ u ∈ everySecond (s.kids dup), s'.refOf u = some dup := by
+  obtain ⟨s', h, k, r, _⟩ := repointLive_skips dup target hne (s.kids dup) [] s ((s.kids dup).length + 1)
+    (Nat.lt_succ_self _) (by simp) (by simpa using hnd) hwf
+  exact ⟨s', by simpa using h, by simpa using k, r⟩
+
+example (a b : User) (r : List User) : everySecond (a :: b :: r) ≠ [] := by simp [everySecond]
 
 /-- six users: three are left behind -/
 example : (repointLive (fun _ => true) 1 0 10 0 (Store.ofLists [(0, []), (1, [10, 11, 12, 13, 14, 15])]
